@@ -338,7 +338,10 @@ fn second_define(acc: &mut Acc) {
             Ok(()) => None,
             Err(p) => p.downcast_ref::<String>().cloned().or_else(|| p.downcast_ref::<&str>().map(|s| s.to_string())),
         };
-        let after = (r.parse("aax").into_output(), r.parse("y").has_output());
+        // (guarded: if the second definition was installed after all, `r := r` recurses until the stack-growth
+        // guard runs out of memory and panics)
+        let after = std::panic::catch_unwind(std::panic::AssertUnwindSafe(|| (r.parse("aax").into_output(), r.parse("y").has_output()))).unwrap_or((None, true));
+        let _ = LOC.lock().unwrap().take();
         outcomes.push(json!({"variant": variant, "panicked": res.is_err(), "message": msg, "panic_location": loc, "after": format!("{:?}", after)}));
         let near = |l: &str| l.contains("c12.rs") && (line - 2..=line + 2).any(|n| l.ends_with(&format!(":{}", n)));
         let d = if res.is_ok() {
